@@ -17,6 +17,24 @@ func init() {
 
 func Checks() map[string]*simcore.Check {
 	return map[string]*simcore.Check{
+		"C34": {
+			ID: "C34", Engine: "execsim", Level: "fault_enumeration",
+			Rule: "case = world (fork cancun/prague/osaka/amsterdam; 1-5 senders, 2-6 generated contracts touching shared slots, other accounts' balance/code, absent accounts, storage deletes, creates, self-destructs, BLOCKHASH of ancestors, system contracts) + 1-3 blocks of 0-12 transactions + chain knobs (hash/path scheme, cache sizes, prefetcher on/off) + per block a sample of witness elements to remove (trie node / code blob / ancestor header; thorough: larger sample). Each block is imported with InsertBlockWithoutSetHead(makeWitness=true); ExecuteStateless runs on the collected witness, then once per removal. Non-trivial = a block with >=1 transaction; distinct = distinct (fork, knobs, block hashes).",
+			Assumptions: []string{
+				"blocks come from core.GenerateChain; the importing chain's own full-state validation accepted the block before the witness is used",
+				"the witness content may depend on the trie prefetcher's schedule (not decided); every oracle clause holds for any content",
+				"a panic of ExecuteStateless on an incomplete witness counts as failing (the property only forbids success with different roots); it is counted, not reported",
+				"the parent header is never removed: it carries the pre-state root and its absence is a malformed witness, not a missing element",
+			},
+			Components: simcore.Components{
+				Real: []string{"core.BlockChain.InsertBlockWithoutSetHead/ProcessBlock with makeWitness", "state.StateDB witness collection + trie prefetcher", "stateless.Witness/MakeHashDB", "core.ExecuteStateless (StateProcessor + BlockValidator over the witness database)", "core.GenerateChain"},
+				Stub: []string{"disk of the importing chain: simdisk.SimKV", "the witness with one element removed (the stateless side's missing-data fault)"},
+			},
+			Perturbed: []string{"trie prefetcher / subfetcher interleaving while the witness is collected (GOMAXPROCS from checks.json)"},
+			Runs:      map[string]int{"quick": 480, "thorough": 20000},
+			Gen:       gen34, Decode: decode34, Run: run34, Shrink: shrink34,
+			ProbeNames: []string{"witness-with-ancestor-headers", "fault-outcome-error", "fault-outcome-same-roots"},
+		},
 		"C33": {
 			ID: "C33", Engine: "execsim", Level: "exploration",
 			Rule: "case = Amsterdam-from-genesis world (1-5 funded senders, 2-7 generated contracts with shared storage slots, system contracts) + 1-2 blocks of 0-24 transactions built by core.GenerateChain (sequential execution = the true access list) + chain knobs (GOMAXPROCS 1..16 = worker count, hash/path scheme, clean/snapshot cache 0/1/16 MB) + 1-4 access-list mutations per block. Each true block is imported by a sequential-mode chain and by an access-list-driven chain; the real processors' results are compared field by field. Non-trivial = a block with >=2 transactions in which some balance, nonce or storage slot changes at two or more block-access indices (a later transaction reads what an earlier one wrote); distinct = distinct (knobs, rebuilt access list hashes).",
